@@ -667,10 +667,44 @@ func (fr *Frame) precreateFor(cc *ssa.CallCommon, st *State) bool {
 			fx.ghostCell(st, fmt.Sprintf("evarg:%s:%d", name, i), ash, freshVal(fx.decls, ash, "evargs0"))
 			fx.ghostCell(st, fmt.Sprintf("arg:%s:%d", name, i), ash.elem, freshVal(fx.decls, ash.elem, "arg0"))
 		}
+		res := cc.Method.Type().(*types.Signature).Results()
+		for i := 0; i < res.Len(); i++ {
+			ash := &Shape{kind: KArr, elem: shapeOf(res.At(i).Type()), n: -1}
+			ash.key = "[ev]" + ash.elem.key
+			fx.ghostCell(st, fmt.Sprintf("evres:%s:%d", name, i), ash, freshVal(fx.decls, ash, "evress0"))
+		}
 		fx.ghostCell(st, "calls:"+name, intSh, mkInt(intSh, "0"))
 		return true
 	}
-	if _, isB := cc.Value.(*ssa.Builtin); isB || cc.StaticCallee() != nil {
+	if callee := cc.StaticCallee(); callee != nil {
+		sp := fx.eng.specFor(callee)
+		if sp == nil || !sp.Logged {
+			return false
+		}
+		fx.ghostCell(st, "evn", intSh, mkInt(intSh, "0"))
+		ksh := &Shape{kind: KArr, elem: intSh, n: -1, key: "[ev]kind"}
+		fx.ghostCell(st, "evkind", ksh, freshVal(fx.decls, ksh, "evkind0"))
+		name := funcKey(callee)
+		if i := strings.LastIndex(name, "/"); i >= 0 {
+			name = name[i+1:]
+		}
+		for i, a := range cc.Args {
+			ash := &Shape{kind: KArr, elem: shapeOf(a.Type()), n: -1}
+			ash.key = "[ev]" + ash.elem.key
+			fx.ghostCell(st, fmt.Sprintf("evarg:%s:%d", name, i), ash, freshVal(fx.decls, ash, "evargs0"))
+			fx.ghostCell(st, fmt.Sprintf("arg:%s:%d", name, i), ash.elem, freshVal(fx.decls, ash.elem, "arg0"))
+		}
+		res := callee.Signature.Results()
+		for i := 0; i < res.Len(); i++ {
+			ash := &Shape{kind: KArr, elem: shapeOf(res.At(i).Type()), n: -1}
+			ash.key = "[ev]" + ash.elem.key
+			fx.ghostCell(st, fmt.Sprintf("evres:%s:%d", name, i), ash, freshVal(fx.decls, ash, "evress0"))
+			fx.ghostCell(st, fmt.Sprintf("res:%s:%d", name, i), ash.elem, freshVal(fx.decls, ash.elem, "res0"))
+		}
+		fx.ghostCell(st, "calls:"+name, intSh, mkInt(intSh, "0"))
+		return true
+	}
+	if _, isB := cc.Value.(*ssa.Builtin); isB {
 		return false
 	}
 	sig := cc.Signature()
